@@ -77,7 +77,8 @@ public:
   const DataType& coeffs() const;
 
   //! @brief Access the underlying data by pointer
-  Scalar* data();
+  //! (pointer to const for a view over const memory)
+  auto data() -> decltype(std::declval<DataType&>().data());
   //! @brief Access the underlying data by const pointer
   const Scalar* data() const;
 
@@ -446,8 +447,8 @@ TangentBase<_Derived>::coeffs() const
 }
 
 template <class _Derived>
-typename TangentBase<_Derived>::Scalar*
-TangentBase<_Derived>::data()
+auto TangentBase<_Derived>::data()
+-> decltype(std::declval<DataType&>().data())
 {
   return derived().coeffs().data();
 }
